@@ -18,7 +18,7 @@ Proof. destruct e; cbn; [apply rform2_ok|apply revise_elem2_ok|apply rsucc2_S_ok
 (* per-row functions: a row goes through the changes the block carries for it, in order *)
 Definition evrow1 (h : N) (b : block) (c : c1) : c1 := applyl1 h (evl1_of (id1 c) b) c.
 Definition evrow2 (i : idx) (b : block) (c : c2) : c2 := applyl2 i (evl2_of (id2 c) b) c.
-Definition revrow1 (b : block) (c : c1) : c1 := revertl1 (evl1_of (id1 c) b) c.
+Definition revrow1 (b : block) (c : c1) : c1 := revertl1 (revl1_of (id1 c) b) c.
 Definition revrow2 (b : block) (c : c2) : c2 := revertl2 (evl2_of (id2 c) b) c.
 Definition rejrow1 (rj : option N) (c : c1) : c1 :=
   match rj with Some hm => if q_rej1 hm c then fstok (rej1 c) c else c | None => c end.
@@ -89,18 +89,56 @@ Proof.
     destruct (find2_in_ids _ _ _ Ef) as [_ Hid]. unfold evrow2, applyl2, evl2_of. rewrite seql2_evs, Hid. reflexivity.
 Qed.
 
+(* RevertContracts meets the changes of a contract in the order of ApplyContracts with the formation last *)
+Lemma filter_all {X} (p : X -> bool) l : (forall x, In x l -> p x = true) -> filter p l = l.
+Proof. induction l as [|x t IH]; cbn; [reflexivity|]. intros H. rewrite (H x (or_introl eq_refl)). f_equal. apply IH; auto. Qed.
+Lemma filter_none {X} (p : X -> bool) l : (forall x, In x l -> p x = false) -> filter p l = [].
+Proof. induction l as [|x t IH]; cbn; [reflexivity|]. intros H. rewrite (H x (or_introl eq_refl)). apply IH; auto. Qed.
+Lemma sel_const {X} (mk : X -> N * pev1) (e0 : pev1) id (L : list X) :
+  (forall x, snd (mk x) = e0) -> forall e, In e (map snd (filter (fun p => fst p =? id) (map mk L))) -> e = e0.
+Proof.
+  intros Hmk e He. apply in_map_iff in He. destruct He as (p & <- & Hp). apply filter_In in Hp.
+  destruct Hp as [Hp _]. apply in_map_iff in Hp. destruct Hp as (x & <- & _). apply Hmk.
+Qed.
+
+Lemma revl1_rorder id b : revl1_of id b = rorder1 (evl1_of id b).
+Proof.
+  unfold revl1_of, evl1_of, revs1, evs1, rorder1. rewrite !filter_app, !map_app, !filter_app.
+  set (c := map snd (filter _ (map (fun id0 => (id0, PForm1)) (bConf1 b)))).
+  set (r := map snd (filter _ (map _ (bRev1 b)))).
+  set (sc := map snd (filter _ (map (fun id0 => (id0, PSucc1)) (bSucc1 b)))).
+  set (f := map snd (filter _ (map (fun id0 => (id0, PFail1)) (bFail1 b)))).
+  assert (Hc : forall e, In e c -> e = PForm1) by (apply sel_const; reflexivity).
+  assert (Hs : forall e, In e sc -> e = PSucc1) by (apply sel_const; reflexivity).
+  assert (Hf : forall e, In e f -> e = PFail1) by (apply sel_const; reflexivity).
+  assert (Hr : forall e, In e r -> is_form1 e = false).
+  { intros e He. unfold r in He. apply in_map_iff in He. destruct He as (p & <- & Hp). apply filter_In in Hp.
+    destruct Hp as [Hp _]. apply in_map_iff in Hp. destruct Hp as (x & <- & _). reflexivity. }
+  rewrite (filter_none _ c), (filter_all _ r), (filter_all _ sc), (filter_all _ f),
+          (filter_all _ c), (filter_none _ r), (filter_none _ sc), (filter_none _ f).
+  - cbn [app]. rewrite !app_nil_r, <- !app_assoc. reflexivity.
+  - intros e He. rewrite (Hf e He). reflexivity.
+  - intros e He. rewrite (Hs e He). reflexivity.
+  - exact Hr.
+  - intros e He. rewrite (Hc e He). reflexivity.
+  - intros e He. rewrite (Hf e He). reflexivity.
+  - intros e He. rewrite (Hs e He). reflexivity.
+  - intros e He. rewrite (Hr e He). reflexivity.
+  - intros e He. rewrite (Hc e He). reflexivity.
+Qed.
+
 Lemma revert_block_rows b s :
   Inv s ->
-  (forall id, evl1_of id b <> [] -> find1 id (cs1 s) <> None) ->
+  (forall id, revl1_of id b <> [] -> find1 id (cs1 s) <> None) ->
   (forall id, evl2_of id b <> [] -> find2 id (cs2 s) <> None) ->
-  (forall id c, find1 id (cs1 s) = Some c -> rrows_ok1 (evl1_of id b) c) ->
+  (forall id c, find1 id (cs1 s) = Some c -> rrows_ok1 (revl1_of id b) c) ->
   (forall id c, find2 id (cs2 s) = Some c -> rrows_ok2 (evl2_of id b) c) ->
   exists s', revert_block (rev_of b) s = ROk s' /\ Inv s' /\
     (forall id, find1 id (cs1 s') = option_map (revrow1 b) (find1 id (cs1 s))) /\
     (forall id, find2 id (cs2 s') = option_map (revrow2 b) (find2 id (cs2 s))).
 Proof.
   intros Hs K1 K2 P1 P2. unfold revert_block, rev_of. cbn [snd]. rewrite revert_contracts_folds.
-  destruct (fs1_spec _ fst (fun p => rrow1_of (snd p)) (fun p => rrow1_of_ok _) (evs1 b) s Hs)
+  destruct (fs1_spec _ fst (fun p => rrow1_of (snd p)) (fun p => rrow1_of_ok _) (revs1 b) s Hs)
     as (s1 & E1 & Hs1 & Hc2 & Hf1).
   { intros p Hp. apply K1. apply in_evs_evl; exact Hp. }
   { intros id c Ef. apply seq_rrows1. apply (P1 id c Ef). }
@@ -111,7 +149,7 @@ Proof.
   exists s2. split; [|split; [exact Hs2|split]].
   - unfold R1. unfold R1 in E1. rewrite E1. cbn [rbind]. exact E2.
   - intros id. rewrite Hc1, Hf1. destruct (find1 id (cs1 s)) as [c|] eqn:Ef; cbn; [|reflexivity].
-    destruct (find1_in_ids _ _ _ Ef) as [_ Hid]. unfold revrow1, revertl1, evl1_of. rewrite seql1_evs, Hid. reflexivity.
+    destruct (find1_in_ids _ _ _ Ef) as [_ Hid]. unfold revrow1, revertl1, revl1_of. rewrite seql1_evs, Hid. reflexivity.
   - intros id. rewrite Hf2, Hc2. destruct (find2 id (cs2 s)) as [c|] eqn:Ef; cbn; [|reflexivity].
     destruct (find2_in_ids _ _ _ Ef) as [_ Hid]. unfold revrow2, revertl2, evl2_of. rewrite seql2_evs, Hid. reflexivity.
 Qed.
@@ -232,8 +270,8 @@ Proof. apply applyl1_proj. Qed.
 Lemma evrow2_proj i b c : rows_ok2 i (evl2_of (id2 c) b) c ->
   proj2 (evrow2 i b c) = spec_evs2 i (evl2_of (id2 c) b) (proj2 c) /\ stat2 (evrow2 i b c) = stat2 c.
 Proof. apply applyl2_proj. Qed.
-Lemma revrow1_proj b c : rrows_ok1 (evl1_of (id1 c) b) c ->
-  proj1 (revrow1 b c) = rspec_evs1 (evl1_of (id1 c) b) (proj1 c) /\ stat1 (revrow1 b c) = stat1 c.
+Lemma revrow1_proj b c : rrows_ok1 (revl1_of (id1 c) b) c ->
+  proj1 (revrow1 b c) = rspec_evs1 (revl1_of (id1 c) b) (proj1 c) /\ stat1 (revrow1 b c) = stat1 c.
 Proof. apply revertl1_proj. Qed.
 Lemma revrow2_proj b c : rrows_ok2 (evl2_of (id2 c) b) c ->
   proj2 (revrow2 b c) = rspec_evs2 (evl2_of (id2 c) b) (proj2 c) /\ stat2 (revrow2 b c) = stat2 c.
